@@ -10,7 +10,7 @@ NOTE = ("Trusted: go/ssa semantics as implemented by /verif/engine (validated by
 # property id -> (claimed?, level text, design ref)
 CLAIMED = {
   "C01": "Real handlers over two allocations with symbolic sender, peers, numbers and payloads: a Send indication / ChannelData message makes exactly one datagram leave, from the sender's own relay socket, to the named / bound peer, iff permission-for-IP / binding-by-number in the sender's own allocation; CreatePermission, ChannelBind and Connect never install a peer the (IP-determined) permission policy refuses or whose family (hand-encoded XOR-PEER-ADDRESS, IPv4-mapped-as-IPv6 included) differs from the allocation's; permission entries are keyed by their own address and expire one permission timeout after their last refresh on every path; after a permission has expired a Send is not relayed even while a channel binding to that peer is still live.",
-  "C02": "Real packetConnHandler / connHandler run as goroutines over scripted fake sockets: a datagram (size 0..65507 symbolic) or inbound TCP connection is forwarded / announced iff binding for the exact source or permission for the source IP, only to the owning client, with truthful channel number / XOR-PEER-ADDRESS, also for a second datagram and across a permission expiry between two datagrams.",
+  "C02": "Real packetConnHandler / connHandler run as goroutines over scripted fake sockets: a datagram (size 0..65507 symbolic) or inbound TCP connection is forwarded / announced iff binding for the exact source or permission for the source IP, only to the owning client, with truthful channel number / XOR-PEER-ADDRESS, also for a second datagram and across a permission expiry between two datagrams. Also across a channel expiry (and re-bind) between two datagrams; permissions of one request expire and are refreshed independently.",
   "C03": "authenticateRequest: authenticated implies MESSAGE-INTEGRITY present, nonce accepted, handler accepted, integrity matched against exactly the handler's key for the presented username/realm; refusals answered once with 401/438/400, fresh nonce, the server's realm; every request handler takes effect (and answers success) only with valid credentials of the allocation's owner. Both nonce implementations (IA arithmetic, HMAC as uninterpreted functions): own nonces valid for the hour and not beyond, accepted forgeries must be timestamp||HMAC(key,timestamp) of the last hour, keys come from the random source, another instance's nonces are rejected.",
   "C04": "5-tuple fingerprint equal iff same 5-tuple (UDP/TCP addresses, IPv4/IPv6/IPv4-mapped); every handler harness carries a second allocation that must stay untouched; relay traffic only to the owner; duplicate CreateAllocation rejected without side effect; per-allocation duplicate-connection rule; every configured listener has an allocation table of its own (the transport component of the 5-tuple).",
   "C05": "Byte-identical payload (symbolic probe index), exactly one forward, whole-or-dropped for all datagram sizes, truthful attribution, padding and length fields in both directions and both encapsulations; queued client payloads survive reuse of the read buffer; the server read loop drops datagrams that fill the inbound buffer (datagram or stream framing); a stream frame larger than the caller's buffer is consumed whole.",
@@ -21,14 +21,14 @@ CLAIMED = {
   "C10": "The stream framer equals an int-arithmetic reference framer on every buffer; one ReadFrom step from an arbitrary buffered prefix with arbitrary further cuts returns exactly the reference frame, consumes exactly its bytes, keeps the rest in its own memory (inductive step for streams of any length); the ConnectionBind reply is parsed identically for every cut of the stream.",
   "C11": "ChannelData encode/decode for all 2^16 numbers and payload lengths 0..65535, decode-iff-wellformed on arbitrary raw buffers, clean padding on re-encode; all eleven TURN attribute codecs round-trip over their whole domains and reject every wrong-sized raw value (0..24 bytes).",
   "C12": "Client transactions on the real Client/Transaction code with goroutines as cooperative threads: 7 transmissions at RTO, doubling, capped 1.6 s for every RTO in (0,1.6 s]; completion exactly once by the response with the matching id (any id symbolic), duplicates/strangers ignored; Close and write errors release the caller; fire-and-forget failures and first-write errors leave nothing in the table; completions only under the table lock; every schedule of 7 (9) events from {timer callback incl. late ones, matching response incl. duplicates, foreign response, Close}: the caller is released exactly once exactly when due, one transmission per elapsed interval, nothing afterwards; the response arriving while a retransmission is inside the socket write.",
-  "C13": "Relayed socket: data only after a CreatePermission success (all server reactions, up to 3 attempts), ChannelData only on a binding the server confirmed for that exact peer/number (also after repeated lost binds), own number per peer in range; ReadFrom returns queued payloads unchanged, honours deadline (also one set while a reader is blocked) and Close (repeatedly, also when the deallocating Refresh cannot be sent); inbound queues never block.",
+  "C13": "Relayed socket: data only after a CreatePermission success (all server reactions, up to 3 attempts), ChannelData only on a binding the server confirmed for that exact peer/number (also after repeated lost binds), own number per peer in range; ReadFrom returns queued payloads unchanged, honours deadline (also one set while a reader is blocked) and Close (repeatedly, also when the deallocating Refresh cannot be sent); inbound queues never block; a second concurrent writer to the same peer IP waits for the permission; ChannelData on a not yet confirmed binding is delivered.",
   "C14": "Compositional (weaker than the other claims, see DESIGN.md C14): solver-checked ingredients on the real code - refresh intervals wired by NewUDPConn for all configurations, PeriodicTimer re-arms the full interval every round and stops cleanly (goroutine as cooperative thread), allocation / permission / binding refresh rounds (438 retry with the new nonce, every peer named, refresh iff older than the refresh age), Close stops the timers and sends Refresh(0), and the schedule inequality period + 3 transactions + jitter < server timeout from the constants in the code. In addition a co-simulation of the real relayed socket (with its periodic-timer goroutines) against the real server handlers on one virtual clock (library default cadences, lifetimes 2 min / 10 min / 1 h, hourly nonce expiry, idle client or two peers, up to 2 h of protocol time; timing concrete, data symbolic): server-side state never lapses, data still flows after silence, Close removes the allocation. Known finding close-with-stale-nonce (genuine, recorded): Close with a stale nonce leaves the allocation until it expires.",
   "C15": "Teardown balance: after expiry, DeleteAllocation, relay/listener failure or Manager.Close every socket is closed exactly once, every timer stopped, tables empty (also with three bindings), created/deleted events pair up, repeated deletes release and report nothing, failed Allocate/Connect (UDP and TCP transport) and EVEN-PORT probing leave nothing open or registered, nothing is released by something that does not own it.",
   "C16": "TCP relay connection table and handlers: ids unique (also across allocations), bind succeeds iff right id and owner and only once, refused binds consume nothing and leave the deadline running, 30 s deadline armed and effective, Connect error mapping 403/446/447 (446 also when the peer is named in IPv4-mapped form), inbound connections need a permission, ConnectionBind starts both copy directions and cleans up; the manager lock is free on every path. Client side (TCPAllocation dial/accept): the data connection is bound with exactly the id the server named, only after permission and Connect succeeded. Byte piping on the real io.Copy loops as goroutines over harness-driven streams: chunks in flight in both directions at once arrive unmodified, once and in order, and the end of either side closes both connections and forgets the id.",
   "C17": "Both credential generators against the matching handlers with clock, duration, secret, user (also containing ':') and realm symbolic (IA arithmetic): accepted at every instant up to the expiry time, rejected from one second after it, also on repeated validation; the returned key is the same term as GenerateAuthKey(username, realm, generated password); non-numeric usernames rejected. HMAC/MD5/base64 are uninterpreted functions.",
-  "C18": "Sequential lock discipline on every path of every harness that serves C18 (lock balance, self-deadlock, recursive RLock, unlock of unheld mutex), the publication invariant at every callback, and guarded-by for the allocation table, permission tables and the client's transaction table. Scripted interleavings on the real code (cooperative goroutines, mutexes blocking across them, pre-emption where a harness fake holds a socket write, a dial or a lifecycle callback): teardown during a slow callback (reproduces the nil-timer crash of the unrepaired tree), teardown during a slow dial, a timer firing while a request is inside its socket write, a response during a retransmission, Close with a blocked reader. Interleavings that are not scripted, and data races as such, are outside the technique.",
+  "C18": "Sequential lock discipline on every path of every harness that serves C18 (lock balance, self-deadlock, recursive RLock, unlock of unheld mutex), the publication invariant at every callback, and guarded-by for the allocation table, permission tables and the client's transaction table. Scripted interleavings on the real code (cooperative goroutines, mutexes blocking across them, pre-emption where a harness fake holds a socket write, a dial or a lifecycle callback): teardown during a slow callback (reproduces the nil-timer crash of the unrepaired tree), teardown during a slow dial, a timer firing while a request is inside its socket write, a response during a retransmission, Close with a blocked reader, a response arriving during the first socket write (also with Close landing meanwhile), teardown during a slow created-callback, two concurrent writers to one peer. Interleavings that are not scripted, and data races as such, are outside the technique.",
   "C19": "Response correlation on every handler harness and on raw/structured server input (transaction id, method, destination, at most one response), Binding reports exactly the source address, Allocate success reports true mapped/relayed address and the lifetime armed (RESERVATION-TOKEN with EVEN-PORT), a retransmission gets the same success again without creating anything, any other Allocate (even malformed, even by another user) gets 437 with no change.",
-  "C20": "All three generators over a fake transport.Net: every bind attempt of the port-range generator lies in [MinPort, MaxPort] for all 2^32 configurations with MinPort <= MaxPort and all random outputs (Intn argument always positive), advertised IP is the configured one, advertised port is the bound port, requested ports pass through, failure leaves nothing open.",
+  "C20": "All three generators over a fake transport.Net: every bind attempt of the port-range generator lies in [MinPort, MaxPort] for all 2^32 configurations with MinPort <= MaxPort and all random outputs (Intn argument always positive), advertised IP is the configured one, advertised port is the bound port, requested ports pass through, failure leaves nothing open. Two live allocations through the port-range generator over a host model with Linux's port bookkeeping (busy port refused unless both sockets asked for SO_REUSEPORT): UDP allocations never share a port and an exhausted range fails cleanly. Known finding tcp-relay-listeners-share-a-port (genuine, recorded): TCP relay listeners are opened with SO_REUSEPORT and two live TCP allocations can share a relay port.",
 }
 NA = {}
 ALL = ["C%02d" % i for i in range(1, 21)]
